@@ -17,16 +17,68 @@ import (
 
 // Case is one decoder call; it is self-contained (replayable).
 type Case struct {
-	Fam string  `json:"fam"`         // serix | json | map | prim | stream | util
-	Tgt string  `json:"tgt"`         // target type / operation
-	Val bool    `json:"val"`         // validation on
-	In  string  `json:"in"`          // input, hex
-	P   []int64 `json:"p,omitempty"` // numeric parameters of primitive operations
-	Org string  `json:"org"`         // provenance: mutation kind (+ detail)
-	Txt string  `json:"txt,omitempty"`
+	Fam  string    `json:"fam"`         // serix | json | map | prim | stream | util
+	Tgt  string    `json:"tgt"`         // target type / operation
+	Val  bool      `json:"val"`         // validation on
+	In   string    `json:"in"`          // input, hex (empty when Long is set)
+	P    []int64   `json:"p,omitempty"` // numeric parameters of primitive operations
+	Org  string    `json:"org"`         // provenance: mutation kind (+ detail)
+	Txt  string    `json:"txt,omitempty"`
+	Long *LongSpec `json:"long,omitempty"` // long input, described instead of spelled out
+	Rd   int       `json:"rd,omitempty"`   // stream family: 0 plain reader, 1 one byte per Read, n>1 chunks of n bytes
+	K    int       `json:"k,omitempty"`    // long-input rule: allowed allocation per input byte (default 16)
+
+	in []byte
 }
 
-func (cs *Case) input() []byte { b, _ := hex.DecodeString(cs.In); return b }
+// LongSpec describes Pre ++ pattern(N, Pat) ++ Tail.
+type LongSpec struct {
+	Pre  string `json:"pre"`  // hex
+	N    int    `json:"n"`    // payload length
+	Pat  int    `json:"pat"`  // 0 byte pattern, 1 'a', 2 hex digits, 3 '9', 4 8-byte big-endian counters (sorted, unique)
+	Tail string `json:"tail"` // hex
+}
+
+func (l *LongSpec) build() []byte {
+	pre, _ := hex.DecodeString(l.Pre)
+	tail, _ := hex.DecodeString(l.Tail)
+	b := make([]byte, 0, len(pre)+l.N+len(tail))
+	b = append(b, pre...)
+	for i := 0; i < l.N; i++ {
+		switch l.Pat {
+		case 1:
+			b = append(b, 'a')
+		case 2:
+			b = append(b, "0123456789abcdef"[(i*7+3)&15])
+		case 3:
+			b = append(b, '9')
+		case 4:
+			b = append(b, byte(uint64(i/8)>>(8*uint(7-i%8))))
+		default:
+			b = append(b, byte(i*31+i>>8+1))
+		}
+	}
+	return append(b, tail...)
+}
+
+func (cs *Case) input() []byte {
+	if cs.in == nil {
+		if cs.Long != nil {
+			cs.in = cs.Long.build()
+		} else {
+			cs.in, _ = hex.DecodeString(cs.In)
+		}
+		if cs.in == nil {
+			cs.in = []byte{}
+		}
+	}
+	return cs.in
+}
+
+func mkLong(fam, tgt string, val bool, pre []byte, n, pat int, tail []byte, org string, k int, p ...int64) Case {
+	return Case{Fam: fam, Tgt: tgt, Val: val, Org: org, P: p, K: k,
+		Long: &LongSpec{Pre: hex.EncodeToString(pre), N: n, Pat: pat, Tail: hex.EncodeToString(tail)}}
+}
 
 func mkCase(fam, tgt string, val bool, in []byte, org string, p ...int64) Case {
 	cs := Case{Fam: fam, Tgt: tgt, Val: val, In: hex.EncodeToString(in), Org: org, P: p}
@@ -267,6 +319,28 @@ func profileAllocs(f func()) allocProfile {
 const allocBase = 1 << 20
 const allocPerByte = 1024
 
+// long-input rule: from longMin input bytes on the bound is additionally capped by
+// longBase + K*len (K = 16 for byte-wise decoders, larger for element-wise serix decoding,
+// calibrated on the unchanged tree, see evidence), so that an allocation that follows the
+// length PREFIX instead of the data is also caught when 1024*len is already hundreds of MiB.
+const longMin = 4096
+const longBase = 16 << 20
+const longK = 16
+
+func allocBound(cs *Case, l int) int {
+	b := allocBase + allocPerByte*l
+	if l >= longMin {
+		k := cs.K
+		if k == 0 {
+			k = longK
+		}
+		if lb := longBase + k*l; lb < b {
+			b = lb
+		}
+	}
+	return b
+}
+
 // runner executes cases inside a child process.
 type runner struct {
 	u *universe
@@ -335,7 +409,7 @@ func judge(cs *Case, o *outcome, f func() (int, error)) []verdict {
 		vs = append(vs, verdict{"consumed-out-of-range:" + o.entry,
 			fmt.Sprintf("%s into %s (validation=%v, %s) reported %d consumed bytes for %d input bytes (err=%v)", o.entry, cs.Tgt, cs.Val, cs.Org, o.n, l, o.err)})
 	}
-	if bound := allocBase + allocPerByte*l; o.alloc > uint64(bound) {
+	if bound := allocBound(cs, l); o.alloc > uint64(bound) {
 		// TotalAlloc is the trigger; the exact profile of a re-run decides (see profileAllocs)
 		pr := allocProfile{site: "unattributed", nonErr: int64(o.alloc)}
 		if f != nil {
